@@ -191,6 +191,8 @@ def gen_data(cfg):
     if cfg.get("end_on_file_start") and len(sets["A"]["files"]) >= 2:
         A, B = sets["A"], sets["B"]
         fi = 1 + cfg["end_on_file_start"] % (len(A["files"]) - 1)
+        if cfg.get("end_on_last_file"):
+            fi = len(A["files"]) - 1
         t0 = A["files"][fi][0]
         idx = np.nonzero(A["file_of"] == fi)[0][0]
         A["pts"]["time"][idx] = M.T0 + t0 * SEC
@@ -589,9 +591,17 @@ def gen_cfg(rng, force=None):
     if force == "edge":
         # the period ends exactly where a primary file starts, that file's first sample sits on this
         # second and has a partner shortly before (gen_data places both)
-        cfg["A"].update({"files": max(4, cfg["A"]["files"]), "gaps": rng.choice([[0], [0, 1], [300]])})
-        cfg["B"].update({"files": max(3, cfg["B"]["files"]), "gaps": [0], "first": 0})
-        cfg["end_on_file_start"] = rng.randrange(1, 100)
+        # (derived from the configuration's seed: the class must not shift the random stream of the others)
+        cfg["A"].update({"files": max(4, cfg["A"]["files"]), "gaps": [[0], [0, 1], [300]][cfg["seed"] % 3]})
+        # secondary files that touch, or lie exactly 2 * max_interval apart (their widened periods touch)
+        if cfg["seed"] % 2:
+            # (four files of one length: the widened periods of each pair touch in the middle between them)
+            cfg["B"].update({"files": 4, "gaps": [2 * cfg["mi_s"]], "lengths": [600], "first": 0})
+            cfg["A"].update({"files": max(6, cfg["A"]["files"]), "first": 0})
+            cfg["end_on_last_file"] = True
+        else:
+            cfg["B"].update({"files": max(3, cfg["B"]["files"]), "gaps": [0], "first": 0})
+        cfg["end_on_file_start"] = 1 + cfg["seed"] % 97
         cfg["collision_probe"] = False
         cfg.pop("grid", None)
     if force == "midnight" or (force is None and rng.random() < 0.15):
@@ -660,6 +670,18 @@ def run_config(rec, rng, cfg):
             res = run_once(rec, root, cfg, opt, reg, sets, exp2, c)
             if res is not None:
                 judge(rec, c, res, exp2, info2, "with one unreadable file skipped")
+        afiles = sorted(p for p in reg if "/A/" in p)
+        if len(afiles) >= 3 and cfg["seed"] % 2 == 0:
+            # ... and an unreadable primary file that is followed by other primaries of the same worker
+            victim = afiles[(cfg["seed"] // 2) % (len(afiles) - 1)]
+            exp2, info2 = expected_for(sets, cfg, drop_ids=reg[victim])
+            opt = {"output": "memory", "processes": 1 + (cfg["seed"] // 4) % 2,
+                   "bundle": [None, "primary"][(cfg["seed"] // 8) % 2], "unreadable": [victim]}
+            c = dict(case, opt=dict(opt, unreadable=[os.path.relpath(victim, root)]))
+            rec.count("runs.unreadable_primary_not_last")
+            res = run_once(rec, root, cfg, opt, reg, sets, exp2, c)
+            if res is not None:
+                judge(rec, c, res, exp2, info2, "with one unreadable primary file skipped")
         # the same points split into other files
         if rng.random() < 0.5:
             sets2 = resplit(sets, rng_for(cfg["seed"], "resplit"))
